@@ -45,14 +45,16 @@ LEVEL_TEXT = (
     "|B|^2), PDHG (alpha = 1, linear C, tau sigma |C|^2 < 1). Monotone quantities: PGM distance / objective (base and arbitrary "
     "hook with L >= Lipschitz); FISTA t_k, potential and F(x_k) - F* <= 2L|x_0-x*|^2/(k+1)^2; ADMM W+ + a(2-a)Σρ|Cx+-z|^2 + "
     "2am|x+-x*|^2 <= W (and Boyd's V for alpha = 1); PDHG Fejer inequality in the M-metric; Lyapunov functions of proximal and "
-    "linearized ADMM; all residual accessors -> 0. Merely convex problems in finite dimension: PDHG and LinearizedADMM "
-    "iterates converge to a saddle / KKT point (Opial). Tie: fixed-point residuals at manufactured exact optima and every one "
+    "linearized ADMM; all residual accessors -> 0. Merely convex problems in finite dimension: the iterates of ADMM (N "
+    "constraints, 0 < alpha < 2), LinearizedADMM, ProximalADMM and PDHG (alpha = 1) converge to a KKT / saddle point (Opial). "
+    "PDHG with any alpha: Fejer inequality with an explicit defect; for alpha = 0 (inside the documented range) a proved "
+    "counterexample shows that merely convex problems need not converge. Tie: fixed-point residuals at manufactured exact optima and every one "
     "of these one-step inequalities along trajectories of the real classes."
 )
 LEVEL_NOTE = (
-    "Outside the theorems (numerical exercise only): convergence of the ITERATES of ADMM and ProximalADMM for merely convex f "
-    "(Lyapunov monotone, bounded, residuals -> 0 are proved), of AcceleratedPGM for merely convex f (objective gap is proved); "
-    "PDHG with alpha != 1; NonLinearPADMM and non-linear PDHG beyond fixed points (non-convex); adaptive step-size policies "
+    "Outside the theorems (numerical exercise only): convergence of the ITERATES of AcceleratedPGM for merely convex f "
+    "(objective gap is proved) and of any class for merely convex problems in infinite dimension; PDHG with alpha < 1 for "
+    "strongly convex f (open; for merely convex f convergence is disproved for alpha = 0); NonLinearPADMM and non-linear PDHG beyond fixed points (non-convex); adaptive step-size policies "
     "(C16); inexact sub-problem solvers (C10/C14). Trusted: Lean kernel + Mathlib; real-number idealisation; prox maps / "
     "operators enter through contracts (IsProx = argmin for convex functionals; adjoint identity; operator-norm bounds as "
     "hypotheses); step maps tied to the code by C11."
